@@ -48,7 +48,7 @@ impl Command for TextWindow {
             }
 
             9 => {
-                self.size = ch.to_digit(36).unwrap() as i32;
+                self.size = ch.to_digit(36).ok_or_else(|| anyhow::Error::msg("Invalid base 36 digit"))? as i32;
                 Ok(false)
             }
 
